@@ -285,6 +285,7 @@ class Engine(ExprMixin, BuiltinMixin):
             self.oblige(st, z3.BoolVal(False), "vacuity", "requires-unsat", clause="requires are contradictory")
             return
         old = st.clone()
+        self.fn_entry = old
         loc = f"{mi.file}:{fdef.lineno}"
         self.loop_counter = 0
         try:
@@ -754,10 +755,12 @@ class Engine(ExprMixin, BuiltinMixin):
         at_entry(.) is not needed so far."""
         node = self._parse_clause(e)
         self.spec_mode += 1
+        saved_old, self.old_state = self.old_state, getattr(self, "fn_entry", None)     # old(.) = the function's pre-state
         try:
             return self.eval(st, node)
         finally:
             self.spec_mode -= 1
+            self.old_state = saved_old
 
     def _assume_invs(self, st, lid, invs, entry_state):
         for inv in invs:
